@@ -620,10 +620,15 @@ class ASTListener(ModelicaListener):
         # (ComponentRef) object until we can fill it.
         clause.type.__dict__.update(self.ast[ctx.type_specifier()].__dict__)
         if ctx.array_subscripts() is not None:
+            default_dimensions = clause.dimensions
             clause.dimensions = [self.ast[ctx.array_subscripts()]]
             for sym in self.comp_clause.symbol_list:
                 s = self.class_node.symbols[sym.name]
-                s.dimensions = clause.dimensions
+                if s.dimensions is default_dimensions:
+                    s.dimensions = clause.dimensions
+                else:
+                    # `Real[2] x[3]` declares x[3, 2]
+                    s.dimensions = [s.dimensions[0] + clause.dimensions[0]]
 
         # We make sure that all references to the objects are unique per
         # symbol making copies. Note that if there is only one symbol in the
